@@ -269,7 +269,13 @@ def u_container_errors(root, only_kind=None, only_axis="any"):
     errv = {"abs": z3.Function("error_abs", Ref, PA), "rel": z3.Function("error_rel", Ref, PA)}
     mats = {k_: z3.Function(k_, Ref, MA) for k_ in ("cov_mat", "cov_mat_rel", "cor_mat")}
     isrel = z3.Function("is_relative", Ref, B)
-    eng.lib["np.allclose"] = lambda e, st, a, kw, node: VBool(z3.ForAll([i], z3.Implies(z3.And(0 <= i, i < a[1].len), a[1].arr[i] == a[0].real())))
+    # np.allclose is agreement within a tolerance: implied by exact agreement, but it does NOT imply it (a writer that decides with it may flatten distinct entries)
+    def allclose(e, st, a, kw, node):
+        ex = z3.ForAll([i], z3.Implies(z3.And(0 <= i, i < a[1].len), a[1].arr[i] == a[0].real()))
+        c_ = fresh("within_tolerance", z3.BoolSort())
+        st.assume(z3.Implies(ex, c_))
+        return VBool(c_)
+    eng.lib["np.allclose"] = allclose
     for cls in ("GaussianErrorBase", "SimpleGaussianError", "MatrixGaussianError"):
         mk(eng, cls, "relative", "getter", result=lambda vw: VBool(isrel(vw.self.e)))
         mk(eng, cls, "error", "getter", result=lambda vw: VSeq(errv["abs"](vw.self.e), n))
